@@ -10,6 +10,16 @@
 
 #![recursion_limit = "512"]
 
+// One definition of `env!` for the generator modules, reachable both ways a program can name it:
+// textually (plain `env!(..)`, also inside `concat!`/`include_str!`) and by path (`use std::env;`
+// imports the macro together with the module). Both routes end at this very macro, so the two
+// are not ambiguous; it forwards to the built-in (build.rs points CARGO_MANIFEST_DIR at the
+// repository crate for this compilation).
+macro_rules! env {
+    ($($t:tt)*) => { ::core::env!($($t)*) };
+}
+pub(crate) use env as __env_by_path;
+
 mod ce;
 mod gens;
 mod oracle;
@@ -744,7 +754,14 @@ fn cmd_check(a: &Args) -> i32 {
     // one run of each program under the all-default schedule on this thread first: settles, before
     // sixteen workers start, whether the programs need the thread scheduler (sim::USE_SHUTTLE)
     for g in [Gen::Layout, Gen::Likely] {
+        sim::set_label(Some(sim::RunLabel {
+            gen: g,
+            batch: "default",
+            seed,
+            run: 0,
+        }));
         let _ = sim::execute(g, &ctx.image, sim::replay_mode(&[]), false, false);
+        sim::set_label(None);
     }
     let stride_layout = (layout_runs / 512).max(1);
     let t_sim = Instant::now();
@@ -1033,6 +1050,8 @@ fn cmd_check(a: &Args) -> i32 {
                 "output_stream_short_writes": sum.short_writes,
                 "output_stream_eintr": sum.write_eintr,
                 "clock_reads": sum.clock_reads,
+                "external_programs_asked_for": sum.programs_spawned,
+                "external_programs_not_installed_by_decision": sum.programs_missing,
                 "stderr_prints_discarded": sum.stderr_prints,
                 "prints_after_process_exit_discarded": sum.prints_after_exit,
                 "hard_io_faults_in_gating_runs": "0 (deliberately not injected in gating runs: C18 does not say what a generator must do when its input is unreadable, see DESIGN §4.4)",
@@ -1077,6 +1096,7 @@ fn cmd_check(a: &Args) -> i32 {
                 "S1_rows_compared_with_cldr_reference": st.rows_checked,
                 "S3_integers_decoded": st.ints_decoded,
                 "S4_rows_looked_up_through_maximize": st.lookups,
+                "S4_maximize_calls_in_table_order_reverse_order_and_after_neighbouring_misses": st.lookup_queries,
                 "S4_rows_found": st.lookups_found,
                 "S4_tables_wholly_unreachable_not_gating": st.unreachable_tables,
                 "cldr_likely_subtags_keys": rf.key_text.len(),
@@ -1262,6 +1282,15 @@ fn spawn_watchdog(limit: std::time::Duration, evidence: PathBuf, replay_dir: Pat
     std::thread::spawn(move || loop {
         std::thread::sleep(std::time::Duration::from_millis(500));
         let Some((l, d)) = sim::overdue(limit) else { continue };
+        if l.batch == "internal" {
+            // a replay inside the minimiser or a sample run: the program hangs under a schedule
+            // this thread cannot name
+            harness_error(&format!(
+                "a simulated run of {} (minimiser / sample / replay) did not finish within {} s",
+                l.gen.program(),
+                d.as_secs()
+            ));
+        }
         let v = hang_violation(&l, d.as_secs());
         let _ = std::fs::create_dir_all(&replay_dir);
         let path = replay_dir.join(format!("{}-hang-{}-seed{}-run{}.json", PROPERTY, l.gen.name(), l.seed, l.run));
@@ -1358,14 +1387,16 @@ fn cmd_replay(a: &Args) -> i32 {
         Some("hang") => {
             let gen = Gen::parse(j["generator"].as_str().unwrap_or("")).unwrap_or_else(|| harness_error("replay file: bad generator"));
             let (seed, run) = (j["seed"].as_u64().unwrap_or(1), j["run"].as_u64().unwrap_or(0));
-            let batch = if j["batch"].as_str() == Some("cover") { Batch::Cover } else { Batch::Random };
+            let batch_name = j["batch"].as_str().unwrap_or("random").to_string();
+            let batch = if batch_name == "cover" { Batch::Cover } else { Batch::Random };
             let limit = std::time::Duration::from_secs(j["limit_s"].as_u64().unwrap_or(120)).min(run_time_limit(a));
             let (tx, rx) = std::sync::mpsc::channel();
             let img = image.clone();
             std::thread::Builder::new()
                 .stack_size(64 << 20)
                 .spawn(move || {
-                    let r = sim::execute(gen, &img, make_mode(batch, seed, gen, run), false, false);
+                    let mode = if batch_name == "default" { sim::replay_mode(&[]) } else { make_mode(batch, seed, gen, run) };
+                    let r = sim::execute(gen, &img, mode, false, false);
                     let _ = tx.send(r.panic.clone());
                 })
                 .unwrap();
